@@ -297,11 +297,11 @@ void World::server_handle(VFd &s, bool tcp, const std::string &wire, size_t stre
   tx.api_seq = api_seq; tx.cb_depth = cb_depth; tx.stream_off = stream_off; tx.seq = seq; tx.src_ip = s.local.ipstr();
   tx.deferred = !tcp && next_tx_deferred;
   tx.lseq = tx.deferred ? next_tx_lseq : seq;
-  tx.decode_err = decode(wire, tx.msg);
+  tx.decode_err = decode(wire, tx.msg, &tx.trailing);
   if (tx.decode_err.find("name longer than 255") != std::string::npos) {
     // a name of 256/257 octets: malformed by RFC 1035 but self-consistent; decode leniently and report it separately
     dnsref::g_max_name_octets = 300;
-    tx.decode_err = decode(wire, tx.msg);
+    tx.decode_err = decode(wire, tx.msg, &tx.trailing);
     dnsref::g_max_name_octets = 255;
     bump("tx_name_over_255_octets");
   }
